@@ -1,5 +1,5 @@
 """C06: successful hashes are well-formed passwd(5)-safe strings of the method's shape."""
-from .methods import BY_NAME, method_query
+from .methods import bf_core_query, BY_NAME, method_query
 from .C04 import QUICK_METHODS
 
 META = {
@@ -20,4 +20,6 @@ def queries(tier, seed, build):
     if tier == "thorough":
         names += ["sunmd5-comma", "sunmd5-rounds", "sunmd5-comma-rounds", "sha256crypt", "sha256crypt-rounds",
                   "sha512crypt", "sha512crypt-rounds", "sha1crypt"]
-    return [method_query(BY_NAME[n], "c06-" + n, timeout=900 if tier == "quick" else 3000) for n in names]
+    qs = [method_query(BY_NAME[n], "c06-" + n, timeout=900 if tier == "quick" else 3000) for n in names]
+    qs.append(bf_core_query('c06-bcrypt-core'))
+    return qs
